@@ -2,6 +2,7 @@ import B6.Model.Collections
 import B6.Model.CollectionsExpr
 import B6.Spec.Collections
 import B6.Lemmas.Collections
+import B6.Lemmas.CollectionsHeap
 /-!
 # C24 — Collection functions compute what their documentation says
 
@@ -200,10 +201,10 @@ theorem top_spec (pq : PQ) (law : PQLaw pq) (items : List Item) (n : Int) (out :
         have hinv0 : TopInv n [] (law.elems pq.empty) [] := by
           rw [law.empty]
           exact ⟨by simp, by simp, by simp, by simp⟩
-        obtain ⟨D, hinv⟩ := topLoop_inv pq law n v ((k, v) :: xs) [] pq.empty [] q hinv0 hl
+        obtain ⟨D, hq, hinv⟩ := topLoop_inv pq law n v ((k, v) :: xs) [] pq.empty [] q law.inv_empty hinv0 hl
         simp only [List.nil_append] at hinv
         obtain ⟨o, ho, hperm, hsorted⟩ := popAll_spec pq law (pq.size q) q []
-          (by rw [law.size]; exact Nat.le_refl _)
+          (by rw [law.size]; exact Nat.le_refl _) hq
           (fun y hy => hinv.num y (hinv.perm.mem_iff.mp (List.mem_append_left D hy)))
         rw [ho, List.append_nil] at h
         subst h
@@ -941,5 +942,209 @@ example : findValues true #[.int 1, .int 1, .int 2, .int 3] #[.str "a", .str "a2
     = [.str "a", .str "a2"] := by decide
 -- b6.Less is not symmetric in its error behaviour: int vs float is an error, float vs int is not
 example : goLess (.int 1) (.float 0) = none ∧ goLess (.float 0) (.int 1) = some true := by decide
+
+/-! ## `top` for the heap the code uses, and `FindValue` for sorted int / string keys, without assumptions -/
+
+/-- **`top` with the exact port of container/heap** (`goHeap`, proved to keep the priority-queue law in
+`Lemmas/CollectionsHeap.lean` on top of C30's sift lemmas): the result is the `n` greatest entries, greatest
+first — no assumption about the heap left. -/
+theorem top_spec_goHeap (items : List Item) (n : Int) (out : List Item)
+    (h : top goHeap items .done n = .ok out) : IsTopOf n items out :=
+  top_spec goHeap B6.Lemmas.CollectionsHeap.goHeapLaw items n out h
+
+/-- a probe that compares with none of the keys (every `Less`/`Equal` is an error): nothing is found either way -/
+theorem searchOk_incomparable (ks : List Val) (key : Val)
+    (hl : ∀ k ∈ ks, goLess k key = none) (he : ∀ k ∈ ks, goEqual k key = none) :
+    SearchOk ks.toArray key := by
+  have hE : ∀ i, eqAt ks.toArray key i = false := by
+    intro i
+    unfold eqAt
+    cases hk : ks.toArray[i]? with
+    | none => rfl
+    | some k =>
+      have : k ∈ ks := List.mem_of_getElem? (by simpa using hk)
+      simp [he k this]
+  have hL : ∀ i, notLess ks.toArray key i = true := by
+    intro i
+    unfold notLess
+    cases hk : ks.toArray[i]? with
+    | none => rfl
+    | some k =>
+      have : k ∈ ks := List.mem_of_getElem? (by simpa using hk)
+      simp [hl k this]
+  exact ⟨fun _ j _ _ _ => hL j, fun i h => (by rw [hE i] at h; cases h), fun _ j _ _ _ _ => hE j,
+    fun i _ _ _ _ _ h _ => (by rw [hE i] at h; cases h)⟩
+
+/-- **Keys sorted by any order `b6.Less`/`b6.Equal` realise (`KeyOrder`), probe of the same kind:** the
+hypotheses of `find_value_spec` / `find_values_spec` hold. -/
+theorem searchOk_of_keyOrder (S : Val → Prop) (lt : Val → Val → Bool) (ord : KeyOrder S lt)
+    (ks : List Val) (hS : ∀ k ∈ ks, S k) (hs : ks.Pairwise fun x y => lt y x = false)
+    (key : Val) (hk : S key) : SearchOk ks.toArray key := by
+  have hsz : ks.toArray.size = ks.length := by simp
+  have hget : ∀ i : Nat, i < ks.length → ∃ k, ks.toArray[i]? = some k ∧ ks[i]? = some k ∧ S k := by
+    intro i hi
+    refine ⟨ks[i], by simp [hi], by simp [hi], hS _ (List.getElem_mem hi)⟩
+  -- sortedness on positions
+  have hle : ∀ (i j : Nat) (ki kj : Val), i ≤ j → ks[i]? = some ki → ks[j]? = some kj → lt kj ki = false := by
+    intro i j ki kj hij hi hj
+    have hil : i < ks.length := by
+      rcases Nat.lt_or_ge i ks.length with h | h
+      · exact h
+      · rw [List.getElem?_eq_none h] at hi; cases hi
+    have hjl : j < ks.length := by
+      rcases Nat.lt_or_ge j ks.length with h | h
+      · exact h
+      · rw [List.getElem?_eq_none h] at hj; cases hj
+    by_cases e : i = j
+    · subst e
+      rw [hi] at hj; cases hj
+      exact ord.irrefl _ (hS _ (List.mem_of_getElem? hi))
+    · have := List.pairwise_iff_getElem.mp hs i j hil hjl (by omega)
+      rw [List.getElem?_eq_getElem hil] at hi
+      rw [List.getElem?_eq_getElem hjl] at hj
+      cases hi; cases hj; exact this
+  have hL : ∀ (i : Nat) (k : Val), ks.toArray[i]? = some k → S k → notLess ks.toArray key i = !(lt k key) := by
+    intro i k h1 hSk; simp [notLess, h1, ord.less k key hSk hk]
+  have hE : ∀ (i : Nat) (k : Val), ks.toArray[i]? = some k → S k → eqAt ks.toArray key i = decide (k = key) := by
+    intro i k h1 hSk; simp [eqAt, h1, ord.equal k key hSk hk]
+  refine ⟨?_, ?_, ?_, ?_⟩
+  · intro i j hij hj hi
+    rw [hsz] at hj
+    obtain ⟨ki, a1, a2, a3⟩ := hget i (by omega)
+    obtain ⟨kj, b1, b2, b3⟩ := hget j hj
+    rw [hL i ki a1 a3] at hi
+    rw [hL j kj b1 b3]
+    cases hjk : lt kj key with
+    | false => rfl
+    | true =>
+      exfalso
+      have hik : lt ki key = false := by simpa using hi
+      have hs' := hle i j ki kj hij a2 b2
+      rcases ord.total ki key a3 hk with h | h | h
+      · rw [hik] at h; cases h
+      · rw [h, hjk] at hs'; cases hs'
+      · have := ord.trans kj key ki b3 hk a3 hjk h
+        rw [hs'] at this; cases this
+  · intro i hi
+    by_cases hil : i < ks.length
+    · obtain ⟨ki, a1, a2, a3⟩ := hget i hil
+      rw [hE i ki a1 a3] at hi
+      rw [hL i ki a1 a3]
+      have : ki = key := by simpa using hi
+      rw [this, ord.irrefl key hk]; rfl
+    · have : ks.toArray[i]? = none := by simp; omega
+      simp [eqAt, this] at hi
+  · intro i j hij hj hi he
+    rw [hsz] at hj
+    obtain ⟨ki, a1, a2, a3⟩ := hget i (by omega)
+    obtain ⟨kj, b1, b2, b3⟩ := hget j hj
+    rw [hL i ki a1 a3] at hi
+    rw [hE i ki a1 a3] at he
+    rw [hE j kj b1 b3]
+    have hik : lt ki key = false := by simpa using hi
+    have hne : ki ≠ key := by simpa using he
+    simp only [decide_eq_false_iff_not]
+    intro hjk
+    have hs' := hle i j ki kj hij a2 b2
+    rcases ord.total ki key a3 hk with h | h | h
+    · rw [hik] at h; cases h
+    · exact hne h
+    · rw [hjk, h] at hs'; cases hs'
+  · intro i x j hix hxj hj hi hej
+    rw [hsz] at hj
+    obtain ⟨ki, a1, a2, a3⟩ := hget i (by omega)
+    obtain ⟨kx, c1, c2, c3⟩ := hget x (by omega)
+    obtain ⟨kj, b1, b2, b3⟩ := hget j hj
+    rw [hE i ki a1 a3] at hi
+    rw [hE j kj b1 b3] at hej
+    rw [hE x kx c1 c3]
+    have e1 : ki = key := by simpa using hi
+    have e2 : kj = key := by simpa using hej
+    simp only [decide_eq_true_eq]
+    have s1 := hle i x ki kx hix a2 c2
+    have s2 := hle x j kx kj hxj c2 b2
+    rcases ord.total kx key c3 hk with h | h | h
+    · rw [e1, h] at s1; cases s1
+    · exact h
+    · rw [e2, h] at s2; cases s2
+
+/-- string keys with Go's string `<` -/
+def isStr : Val → Prop
+  | .str _ => True
+  | _ => False
+
+def strLt : Val → Val → Bool
+  | .str x, .str y => decide (x < y)
+  | _, _ => false
+
+theorem strKeyOrder : KeyOrder isStr strLt where
+  less := by
+    intro a b ha hb
+    cases a <;> cases b <;> simp_all [isStr, goLess, strLt]
+  equal := by
+    intro a b ha hb
+    cases a <;> cases b <;> simp_all [isStr, goEqual]
+  irrefl := by
+    intro a ha
+    cases a <;> simp_all [isStr, strLt]
+  trans := by
+    intro a b c ha hb hc
+    cases a <;> cases b <;> cases c <;> simp_all [isStr, strLt]
+    exact String.lt_trans
+  total := by
+    intro a b ha hb
+    cases a with
+    | str x =>
+      cases b with
+      | str y =>
+        simp only [strLt, decide_eq_true_eq, Val.str.injEq]
+        by_cases h1 : x < y
+        · exact Or.inl h1
+        · by_cases h2 : y < x
+          · exact Or.inr (Or.inr h2)
+          · exact Or.inr (Or.inl (String.le_antisymm h2 h1))
+      | _ => simp [isStr] at hb
+    | _ => simp [isStr] at ha
+
+/-- **FindValue / FindValues on a `Sort()`ed feature with string keys: unconditional** — ascending string keys,
+any probe (a string, or a value of another type for which every comparison is an error). -/
+theorem searchOk_str (ks : List String) (hs : ks.Pairwise fun a b => ¬ b < a) (key : Val) :
+    SearchOk (ks.map Val.str).toArray key := by
+  cases key with
+  | str p =>
+    apply searchOk_of_keyOrder isStr strLt strKeyOrder
+    · intro k hk; simp at hk; obtain ⟨a, _, e⟩ := hk; rw [← e]; trivial
+    · rw [List.pairwise_map]
+      exact hs.imp (by intro a b h; simpa [strLt] using h)
+    · trivial
+  | int i =>
+    apply searchOk_incomparable <;> intro k hk <;> simp at hk <;> obtain ⟨a, _, e⟩ := hk <;>
+      rw [← e] <;> rfl
+  | float c =>
+    apply searchOk_incomparable <;> intro k hk <;> simp at hk <;> obtain ⟨a, _, e⟩ := hk <;>
+      rw [← e] <;> rfl
+  | fid t ns v =>
+    apply searchOk_incomparable <;> intro k hk <;> simp at hk <;> obtain ⟨a, _, e⟩ := hk <;>
+      rw [← e] <;> rfl
+  | bool b =>
+    apply searchOk_incomparable <;> intro k hk <;> simp at hk <;> obtain ⟨a, _, e⟩ := hk <;>
+      rw [← e] <;> rfl
+
+/-- the two unconditional statements, spelled out -/
+theorem find_value_int_keys (ks : List Int) (hs : ks.Pairwise (· ≤ ·)) (vals : Array Val) (key : Val) :
+    findValue true (ks.map Val.int).toArray vals key = scanFirst (ks.map Val.int).toArray vals key :=
+  find_value_spec _ _ _ (searchOk_int ks hs key)
+
+theorem find_value_str_keys (ks : List String) (hs : ks.Pairwise fun a b => ¬ b < a) (vals : Array Val)
+    (key : Val) :
+    findValue true (ks.map Val.str).toArray vals key = scanFirst (ks.map Val.str).toArray vals key :=
+  find_value_spec _ _ _ (searchOk_str ks hs key)
+
+theorem find_values_str_keys (ks : List String) (hs : ks.Pairwise fun a b => ¬ b < a) (vals : Array Val)
+    (key : Val) (hv : ks.length ≤ vals.size) :
+    findValues true (ks.map Val.str).toArray vals key = scanAll (ks.map Val.str).toArray vals key :=
+  find_values_spec _ _ _ (searchOk_str ks hs key) (by simpa using hv)
+
+example : IsTopOf 2 exItems [(.int 2, .int 30), (.int 4, .int 30)] := top_spec_goHeap exItems 2 _ (by decide)
 
 end B6.Props.C24
